@@ -96,8 +96,9 @@ def a_sparse(s, conv=num) -> dict:
     else:
         if subs.ndim != 2:
             raise Inexact(f"subs has ndim {subs.ndim}")
-        if not (np.issubdtype(subs.dtype, np.integer) or np.all(subs == np.round(subs))):
-            raise Inexact("non-integer subscripts")
+        if not np.issubdtype(subs.dtype, np.integer):
+            # well-formedness: subscripts are integers (a float-typed subscript array breaks full(), indexing ...)
+            raise Inexact(f"subscripts stored with non-integer dtype {subs.dtype}")
         sl = [[int(x) for x in row] for row in subs]
     vl = [] if vals.size == 0 else [conv(x) for x in vals.reshape(-1)]
     return {"kind": "sparse", "shape": shape, "subs": sl, "vals": vl}
